@@ -33,7 +33,7 @@ META = {
     "level_note": "trusted: Lean kernel, axioms propext/Quot.sound/Classical.choice; Amaranth semantics of lib.memory.Memory "
     "(the Lean Ideal model is compared with Amaranth's own Memory on every cycle of every run) and pysim; the harness glue; the "
     "hand-written models (compared cycle-exactly with the real classes, also outside the hypotheses). Hypotheses forced by the "
-    "real code (each tried at the excluded point, see findings_proposed.txt): no granularity on the ILVT classes (F9: accepted "
+    "real code (each tried at the excluded point; listed as open findings F9, F-c23-2, F-c23-3 in known_findings.txt): no granularity on the ILVT classes (F9: accepted "
     "by the constructors, wrong data), at least one write port for the XOR/ILVT classes (init ignored otherwise), addresses "
     "< depth (MultiportXORMemory forwards dropped out-of-range writes through its bypass).",
 }
@@ -175,7 +175,8 @@ def monitor(case: Case, out: list[str]) -> Optional[str]:
     produced by amaranth.lib.memory.Memory simulated next to the class, not by the Lean model)."""
     if out[0] != "ok":
         return None  # the constructor refused the configuration: nothing is claimed
-    oh = case.desc.get("cls") == "oh"
+    cls = _cfg_of(case.cfg)["cls"]
+    oh = cls == "oh"
     for k, o in enumerate(out[1:]):
         f = dict(x.split("=", 1) for x in o.split())
         if f["d"] != f["ref"]:
@@ -188,7 +189,7 @@ def monitor(case: Case, out: list[str]) -> Optional[str]:
             if not bad:
                 continue
             port = bad[0]
-            return (f"{CLASSES[case.desc['cls']]} {case.cfg[4:]}: cycle {k} read port {port} shows {d[port]}, "
+            return (f"{CLASSES[cls]} {case.cfg[4:]}: cycle {k} read port {port} shows {d[port]}, "
                     f"Amaranth's Memory shows {r[port]} (inputs of the previous cycles: {case.ops[max(0, k - 3):k]})")
     return None
 
@@ -343,37 +344,47 @@ def malformed_cases(ctx: Check) -> list[Case]:
                 grans = [rng.choice([0, 1, 2, w]) for _ in range(nw)]
             amax = 1 << (depth - 1).bit_length()
             ops = gen_ops(rng, depth, w, grans, nr, ctx.pick(60, 600), amax=amax, collide=(k % 2 == 0) or cls in ("mr",))
-            cs.append(mk_case(cls, depth, w, grans, trs, init, ops, "malformed"))
-    # no write port at all: the XOR/ILVT classes have no bank then and ignore init (proposed finding F-c23-2)
+            cs.append(_unclaimed(mk_case(cls, depth, w, grans, trs, init, ops, "malformed")))
+    # no write port at all: the XOR/ILVT classes have no bank then and ignore init (finding F-c23-2)
     for cls in ("xor", "xilvt", "ohilvt", "lvt"):
         ops = [([], [(1, a)]) for a in range(3)] + [([], [(0, 0)])]
-        cs.append(mk_case(cls, 3, 3, [], [0], [5, 6, 7], ops, "malformed"))
+        cs.append(_unclaimed(mk_case(cls, 3, 3, [], [0], [5, 6, 7], ops, "malformed")))
     return cs
 
 
-# witnesses of the findings proposed in findings_proposed.txt (replayed for information only until the
-# coordinator lists them in known_findings.txt: no verdict is derived from them)
-PROPOSED = {
-    "F9 ILVT granularity": ("xilvt", 2, 2, [1, 1], [0], [],
-                            [([(3, 0, 3), (0, 0, 0)], [(0, 0)]), ([(0, 0, 0), (1, 0, 0)], [(0, 0)]),
-                             ([(0, 0, 0), (0, 0, 0)], [(1, 0)]), ([(0, 0, 0), (0, 0, 0)], [(0, 0)])]),
-    "F9 one-hot ILVT granularity, transparent": ("ohilvt", 2, 2, [1], [1], [],
-                                                 [([(3, 0, 3)], [(0, 0)]), ([(1, 0, 0)], [(1, 0)]), ([(0, 0, 0)], [(0, 0)])]),
-    "F-c23-2 no write port, init ignored": ("xor", 2, 2, [], [0], [1, 2], [([], [(1, 1)]), ([], [(0, 0)])]),
-    "F-c23-3 XOR bypass of an out-of-range write": ("xor", 3, 2, [0], [0], [],
-                                                    [([(1, 3, 1)], [(0, 0)]), ([(0, 0, 0)], [(1, 3)]), ([(0, 0, 0)], [(0, 0)])]),
-}
+def _unclaimed(case: Case) -> Case:
+    """Cases that only check model = implementation carry a descriptor that no finding matches, so that a
+    divergence there is never suppressed by `ctx.is_known`."""
+    case.desc = {"component": case.desc["component"], "region": "outside-hypotheses (model/implementation agreement only)"}
+    return case
 
 
-def proposed_witnesses(ctx: Check):
-    for name, (cls, depth, w, grans, trs, init, ops) in PROPOSED.items():
-        case = mk_case(cls, depth, w, grans, trs, init, ops, "witness")
-        try:
-            f = monitor(case, impl(case))
-        except Exception as e:  # noqa: BLE001
-            f = f"{type(e).__name__}: {e}"
-        ctx.count("proposed_finding_witnesses_still_failing" if f else "proposed_finding_witnesses_passing")
-        ctx.note(f"proposed finding '{name}': witness {'still fails: ' + f[:160] if f else 'no longer fails'}")
+def finding_region_cases(ctx: Check) -> list[Case]:
+    """Histories that satisfy the property's hypothesis but lie in the regions of the open findings F9
+    (ILVT classes with write granularity), F-c23-2 (XOR/ILVT classes without write port, init != []) and F-c23-3
+    (MultiportXORMemory, addresses >= depth).  They run WITH the monitor; their descriptors carry the keys
+    the findings match on, so exactly these failures are suppressed (counted as covered by a known finding)."""
+    rng = ctx.rng("finding-regions")
+    cs: list[Case] = []
+    n = ctx.pick(1, 6)
+    for cls in ("xilvt", "ohilvt", "lvt"):
+        for _ in range(n):
+            w = rng.choice([2, 4, 6])
+            nw = rng.choice([1, 2, 3])
+            depth = rng.choice([2, 3, 5, 8])
+            grans = [rng.choice([g for g in range(1, w + 1) if w % g == 0]) for _ in range(nw)]
+            trs = [rng.randrange(1 << nw)]
+            ops = gen_ops(rng, depth, w, grans, 1, ctx.pick(60, 400))
+            cs.append(mk_case(cls, depth, w, grans, trs, _rand_init(rng, depth, w), ops, "finding-region"))
+    for cls in ("xor", "xilvt", "ohilvt", "lvt"):
+        ops = [([], [(1, a)]) for a in range(3)] + [([], [(0, 0)])]
+        cs.append(mk_case(cls, 3, 3, [], [0], [5, 6, 7], ops, "finding-region"))
+    for _ in range(n):
+        depth = rng.choice([3, 5, 6, 7])
+        nw = rng.choice([1, 2])
+        ops = gen_ops(rng, depth, 3, [0] * nw, 1, ctx.pick(60, 400), amax=1 << (depth - 1).bit_length())
+        cs.append(mk_case("xor", depth, 3, [0] * nw, [rng.randrange(1 << nw)], [], ops, "finding-region", {"out_of_range": True}))
+    return cs
 
 
 def exhaustive_cases(ctx: Check) -> list[Case]:
@@ -412,7 +423,7 @@ def corpus_cases() -> list[Case]:
 def more_cases(case: Case, rng):
     c = _cfg_of(case.cfg)
     if c["cls"] != "mr" and not c["g"]:
-        return  # no write port: outside the theorems (proposed finding F-c23-2)
+        return  # no write port: outside the theorems (finding F-c23-2)
     for k in range(30):
         grans = c["g"] if c["cls"] == "mr" else [0] * len(c["g"])  # search inside the hypotheses only (F9)
         ops = gen_ops(rng, c["depth"], c["w"], grans, len(c["tr"]), 200, *[(0.6, 0.75), (0.9, 0.9), (0.4, 0.5)][k % 3])
@@ -496,6 +507,7 @@ def run(ctx: Check):
     # cases outside the hypotheses (tag "malformed") run in the same batch without the monitor: there only
     # model = implementation and Ideal = Amaranth's Memory are checked, no property claim
     cases += malformed_cases(ctx)
+    cases += finding_region_cases(ctx)
     if ctx.thorough:
         ex = exhaustive_cases(ctx)
         ctx.count("exhaustive_two_cycle_histories", len(ex))
@@ -503,12 +515,12 @@ def run(ctx: Check):
     t0 = time.time()
     lockstep(ctx, "multiport-memories", "C23", cases, impl, _monitor_in_hypotheses, more_cases, nontrivial, procs=procs)
     timing["lockstep_s"] = round(time.time() - t0, 1)
-    proposed_witnesses(ctx)
     ctx.extra_coverage["timing"] = timing
     ctx.note("reference = amaranth.lib.memory.Memory simulated next to the class; the Lean driver prints the Ideal model "
              "in the same column, so the specification the theorems refine to is itself validated against Amaranth")
-    ctx.note("F9 region (ILVT classes with write granularity), same-row simultaneous writes and addresses >= depth are "
-             "only run without the monitor (model/implementation agreement)")
+    ctx.note("same-row simultaneous writes (outside the property's hypothesis) run without the monitor (model/implementation "
+             "agreement only, descriptor matches no finding); the regions of the open findings F9, F-c23-2, F-c23-3 run both "
+             "that way and with the monitor under a descriptor the findings match (failures counted as covered)")
 
 
 def replay(ctx: Check, body: dict):
